@@ -3,6 +3,7 @@ Contract invariants OptimalCert (incl. x_in_domain) / OptimalDecision / IterBudg
 families with independent exact evaluation (harness/nlfam.py); cp on a quadratic objective must agree with coneqp, gp with cp
 driven by an independent log-sum-exp callback."""
 import random
+PMAP_TIMEOUT = int(__import__('os').environ.get('VERIF_PMAP_TIMEOUT', '300'))
 from harness import plants, solsuite, nlsuite, tlc
 from harness.core import Check
 
@@ -72,8 +73,10 @@ def run(tier, seed, replay=None):
     solsuite.report(ck, runs, verdict, PROPS, "C04")
     # agreement between solver paths
     import multiprocessing as mp
-    with mp.Pool(16) as pool:
-        agr = pool.map(_agree_job, [c for c in cases if c["family"] == "gp" or (c["family"] == "quadcp" and len(c["fam"].fs) == 1)])
+    from harness.core import pmap
+    agr = pmap(ck, _agree_job, [c for c in cases if c["family"] == "gp" or (c["family"] == "quadcp" and len(c["fam"].fs) == 1)], "c04", timeout=PMAP_TIMEOUT, chunksize=1)
+    if agr is None:
+        ck.finish()
     nag = 0
     for a in agr:
         if "exc" in a:
